@@ -3,7 +3,7 @@
 //
 // Case line:
 //
-//	pair <kind> <limit> <passes> <tags> <chosen> <cancel>
+//	pair <kind> <limit> <passes> <tags> <chosen> <cancel> [<eof layout 0..3>]
 //
 // kind: uri uripost raw jsonl jsona. <tags>: comma separated tag id of every entry of the file
 // (0 = untagged, t => "t<t>"). <chosen>: "-" (no filter) or comma separated tag ids (may repeat,
@@ -72,13 +72,13 @@ func obsString(o a08.Obs) string {
 	return fmt.Sprintf("%d %s %s %s", len(o.Seq), s, o.After, o.Run)
 }
 
-func runOne(kind string, preload bool, limit, passes int, es []a08.Entry, chosen []string, cancel int) (out string) {
+func runOne(kind string, preload bool, limit, passes int, es []a08.Entry, chosen []string, cancel int, eof int) (out string) {
 	defer func() {
 		if r := recover(); r != nil {
 			out = "0 - blocked panic"
 		}
 	}()
-	b, err := a08.Build(kind, preload, limit, passes, es, chosen)
+	b, err := a08.BuildEOF(kind, preload, limit, passes, es, chosen, eof)
 	if err != nil {
 		return "0 - blocked construct"
 	}
@@ -88,8 +88,12 @@ func runOne(kind string, preload bool, limit, passes int, es []a08.Entry, chosen
 
 func runCase(c string) string {
 	f := strings.Split(c, " ")
-	if len(f) != 7 || f[0] != "pair" {
+	if (len(f) != 7 && len(f) != 8) || f[0] != "pair" {
 		return "unknown-case"
+	}
+	eof := 0
+	if len(f) == 8 {
+		eof, _ = strconv.Atoi(f[7])
 	}
 	kind := f[1]
 	limit, _ := strconv.Atoi(f[2])
@@ -109,8 +113,8 @@ func runCase(c string) string {
 	var s, p string
 	var wg sync.WaitGroup
 	wg.Add(2)
-	go func() { defer wg.Done(); s = runOne(kind, false, limit, passes, es, chosen, cancel) }()
-	go func() { defer wg.Done(); p = runOne(kind, true, limit, passes, es, chosen, cancel) }()
+	go func() { defer wg.Done(); s = runOne(kind, false, limit, passes, es, chosen, cancel, eof) }()
+	go func() { defer wg.Done(); p = runOne(kind, true, limit, passes, es, chosen, cancel, eof) }()
 	wg.Wait()
 	return "S " + s + " P " + p
 }
@@ -150,7 +154,8 @@ func gen(r *vh.Rand, tier string) []string {
 			// unbounded: read a few items and cancel (also when nothing matches: then nothing can be read)
 			cancel = strconv.Itoa(2*matches(tags, chosen) + 1)
 		}
-		out = append(out, fmt.Sprintf("pair %s %d %d %s %s %s", kind, limit, passes, joinInts(tags), joinInts(chosen), cancel))
+		// the end-of-file layout (a08.EOFLayouts) rotates over the cells; the entries do not change
+		out = append(out, fmt.Sprintf("pair %s %d %d %s %s %s %d", kind, limit, passes, joinInts(tags), joinInts(chosen), cancel, len(out)%a08.EOFLayouts))
 	}
 	files := [][]int{{1}, {2, 1, 1}, {1, 2, 1, 2}, {1, 0, 2, 1, 3}, {11, 1, 4, 1}, {3, 1, 2, 2, 1, 3}}
 	filters := [][]int{nil, {1}, {2}, {2, 1}, {1, 2, 1}, {9}, {3, 9, 1}, {11}, {4, 2}}
